@@ -511,8 +511,9 @@ func withTrivia(rng *rand.Rand, src []byte, fam int) [][]byte {
 	return withTriviaKinds(rng, src, fam, -1)
 }
 
-// withTriviaKinds: mode -1 mixes everything except lone CR; 0 blanks/tabs, 1 LF, 2 CRLF, 3 block
-// comments, 4 line comments, 5 doc comments, 6 lone CR, 7 mix incl. lone CR
+// withTriviaKinds: the gaps between tokens are REPLACED: mode -1 mixes everything except lone CR;
+// 0 blanks/tabs, 1 LF, 2 CRLF, 3 block comments (touching both neighbours), 4 line comments, 5 doc
+// comments, 6 lone CR, 7 mix incl. lone CR, 8 glue (no trivia wherever the two tokens may touch)
 func withTriviaKinds(rng *rand.Rand, src []byte, fam int, mode int) [][]byte {
 	maj, min := uint64(7), uint64(4)
 	if fam == 5 {
@@ -540,28 +541,82 @@ func withTriviaKinds(rng *rand.Rand, src []byte, fam int, mode int) [][]byte {
 		trivia = []string{"\r", " \r "}
 	case 7:
 		trivia = append(trivia, "\r", "// c\r")
+	case 8:
+		trivia = []string{""}
 	}
 	var out [][]byte
 	nv := 2
 	if mode >= 0 {
 		nv = 1
 	}
+	isIdent := func(c byte) bool {
+		return c == '_' || c >= '0' && c <= '9' || c >= 'a' && c <= 'z' || c >= 'A' && c <= 'Z' || c >= 0x80
+	}
+	// may two tokens stand next to each other with nothing in between?  Decided by PHP's lexical
+	// structure, not by the lexer under test: never two identifier-like ends, never two operator
+	// characters (they could fuse into a longer operator), nothing glued to a quote or a dot/number
+	canGlue := func(a, b string) bool {
+		if a == "" || b == "" {
+			return false
+		}
+		x, y := a[len(a)-1], b[0]
+		if isIdent(x) && isIdent(y) {
+			return false
+		}
+		closers := strings.IndexByte(")]};,", x) >= 0
+		openers := strings.IndexByte("$([{;,)]}", y) >= 0
+		if isIdent(x) && openers && y != '{' {
+			return true
+		}
+		if closers && (isIdent(y) || y == '$' || strings.IndexByte("([{)]};,", y) >= 0) && y != '{' {
+			return true
+		}
+		return false
+	}
+	wsOnly := func(b []byte) bool {
+		for _, c := range b {
+			if c != ' ' && c != '\t' && c != '\n' && c != '\r' {
+				return false
+			}
+		}
+		return len(b) > 0
+	}
 	for v := 0; v < nv; v++ {
 		var b []byte
 		prev := 0
 		inStr := false
 		for i, t := range lt {
-			b = append(b, src[prev:t.S]...)
+			gap := src[prev:t.S]
+			// before 7.3 only `;` or a newline may follow the closing label, and a newline must follow that `;`
+			afterEnd := (i > 0 && lt[i-1].ID == token.T_END_HEREDOC && fam == 5) || (i > 1 && lt[i-2].ID == token.T_END_HEREDOC && lt[i-1].ID == token.ID(';'))
+			free := !inStr && t.ID != token.T_END_HEREDOC && t.ID != token.T_ENCAPSED_AND_WHITESPACE && t.ID != token.T_INLINE_HTML && !afterEnd && t.S > 6 &&
+				!strings.HasPrefix(t.Value, "<?") && !(i > 0 && lt[i-1].ID == token.T_INLINE_HTML) && i > 0 && lt[i-1].ID != token.T_START_HEREDOC
 			if t.ID == token.ID('"') || t.ID == token.ID('`') {
 				inStr = !inStr
 				if !inStr {
-					b = append(b, src[t.S:t.E]...)
-					prev = t.E
-					continue
+					free = false
 				}
 			}
-			afterEnd := i > 0 && lt[i-1].ID == token.T_END_HEREDOC && fam == 5 // before 7.3 only `;` or a newline may follow the closing label
-			if !inStr && t.ID != token.T_END_HEREDOC && t.ID != token.T_ENCAPSED_AND_WHITESPACE && t.ID != token.T_INLINE_HTML && !afterEnd && t.S > 6 && !strings.HasPrefix(t.Value, "<?") && !(i > 0 && lt[i-1].ID == token.T_INLINE_HTML) {
+			switch {
+			case !free:
+				b = append(b, gap...)
+			case mode == 8: // glue: no trivia at all where the two tokens may touch
+				if wsOnly(gap) && canGlue(lt[i-1].Value, t.Value) {
+					// nothing
+				} else {
+					b = append(b, gap...)
+				}
+			case wsOnly(gap) || len(gap) == 0:
+				tv := trivia[rng.Intn(len(trivia))]
+				if len(gap) == 0 && strings.TrimSpace(tv) == "" {
+					tv = "" // tokens that touch in the base stay touching unless a comment separates them
+				}
+				if pv := lt[i-1].Value; tv != "" && pv != "" && (tv[0] == '/' || tv[0] == '#') && strings.IndexByte("/<?*", pv[len(pv)-1]) >= 0 {
+					tv = " " + tv // `/` + `/* c */` would read as a line comment
+				}
+				b = append(b, tv...)
+			default:
+				b = append(b, gap...)
 				b = append(b, trivia[rng.Intn(len(trivia))]...)
 			}
 			if t.ID == token.T_START_HEREDOC {
